@@ -199,6 +199,40 @@ def run(chk, replay=None):
                 items.append(f"read_words (env [{'; '.join(str(b) for b in save.encode())}] [{'; '.join(str(b) for b in newout.encode())}]) [{'; '.join(str(b) for b in body)}]")
                 expect.append((bash_words, rep))
             shutil.rmtree(work, ignore_errors=True)
+        # WILD_SAVE_BASE: every link gets its own numbered bundle; an incremental rebuild between two links must not leak into the other bundle
+        for bi in range(4 if chk.tier == "quick" else 20):
+            if replay:
+                break
+            work = f"{base}/b{bi}"
+            d = f"{work}/src"
+            os.makedirs(d)
+            sb = f"{work}/save base"
+            outs = []
+            for step, val in enumerate([11, 22, 33]):
+                open(f"{d}/val.s", "w").write(f".globl val\nval: mov ${val}, %eax\n ret\n")
+                open(f"{d}/main.s", "w").write(".globl _start\n_start: call val\n ret\n")
+                subprocess.run(f"as --64 val.s -o val.o && as --64 main.s -o main.o", shell=True, cwd=d, check=True)
+                p = subprocess.run([wild, "main.o", "val.o", "-o", f"out{step}"], cwd=d, env=dict(os.environ, WILD_SAVE_BASE=sb), stdout=subprocess.PIPE, stderr=subprocess.STDOUT, text=True, timeout=60)
+                stats["links"] += 1
+                if p.returncode != 0:
+                    chk.violation(f"link with WILD_SAVE_BASE fails: {p.stdout.strip()[-200:]}", {"scenario": "save-base", "step": step})
+                    break
+                outs.append(open(f"{d}/out{step}", "rb").read())
+            bundles = sorted(os.listdir(sb), key=lambda x: int(x) if x.isdigit() else -1) if os.path.isdir(sb) else []
+            if len(outs) == 3 and len(bundles) != 3:
+                chk.violation(f"three links with one WILD_SAVE_BASE left {len(bundles)} bundles ({bundles}); each link must get its own", {"scenario": "save-base", "bundles": bundles})
+            os.rename(d, f"{work}/moved-away")
+            for step, b in enumerate(bundles[:len(outs)]):
+                newout = f"{work}/replay{step}"
+                q = subprocess.run(["bash", f"{sb}/{b}/run-with", wild], cwd=work, env=dict(os.environ, OUT=newout), stdout=subprocess.PIPE, stderr=subprocess.STDOUT, text=True, timeout=60)
+                stats["replays"] += 1
+                if q.returncode != 0 or not os.path.exists(newout):
+                    chk.violation(f"replaying bundle {b} of a WILD_SAVE_BASE fails: {q.stdout.strip()[-200:]}", {"scenario": "save-base", "bundle": b})
+                elif open(newout, "rb").read() != outs[step]:
+                    chk.violation(f"bundle {b} under WILD_SAVE_BASE replays to a different output than link #{step + 1} produced (an input was rebuilt between the links)", {"scenario": "save-base", "bundle": b})
+                else:
+                    stats["identical"] += 1
+            shutil.rmtree(work, ignore_errors=True)
     finally:
         shutil.rmtree(base, ignore_errors=True)
     if items:
